@@ -106,6 +106,8 @@ static inline void K_std_fill_f(float* first, float* last, float value)
 #define FULL_ITER(k, N) (((k)-1) / (N))
 #define CONTRACT_K_relaxation                                                                                        \
   __CPROVER_requires(num_subsets == C08_S && subiteration_num >= 1 && subiteration_num <= 100000000)                   \
+  /* a run may have been resumed at any earlier sub-iteration: the schedule must not depend on where it started */   \
+  __CPROVER_requires(start_subiteration_num >= 1 && start_subiteration_num <= subiteration_num)                        \
   __CPROVER_requires(C08_SUBDOMAIN(subiteration_num, num_subsets))                                                     \
   __CPROVER_assigns()                                                                                                  \
   __CPROVER_ensures(__CPROVER_return_value == FULL_ITER(subiteration_num, num_subsets))                                \
